@@ -527,6 +527,46 @@ Proof. unfold read_page_accepts. destruct (N.eqb_spec (crc32 body) 0); [reflexiv
 Theorem read_page_zero_crc_accepts_anything body : read_page_accepts 0 body = true.
 Proof. reflexivity. Qed.
 
+(** ** the comparison, characterised; alterations of the stored checksum field *)
+
+Theorem read_page_accepts_iff stored body :
+  read_page_accepts stored body = true <-> stored = 0 \/ stored = crc32 body.
+Proof.
+  unfold read_page_accepts.
+  destruct (N.eqb_spec stored 0) as [H0|H0].
+  - split; [intros _; left; exact H0 | reflexivity].
+  - rewrite N.eqb_eq. split; [intros H; right; exact H | intros [H|H]; [contradiction | exact H]].
+Qed.
+
+Theorem read_page_rejects_wrong_stored stored body :
+  stored <> 0 -> stored <> crc32 body -> read_page_accepts stored body = false.
+Proof.
+  intros H0 H1. destruct (read_page_accepts stored body) eqn:E; [|reflexivity].
+  apply read_page_accepts_iff in E. destruct E as [E|E]; contradiction.
+Qed.
+
+(* a bit pattern flipped in the stored checksum field *)
+Theorem read_page_rejects_flipped_checksum body e :
+  e <> 0 -> N.lxor (crc32 body) e <> 0 ->
+  read_page_accepts (N.lxor (crc32 body) e) body = false.
+Proof.
+  intros He Hz. apply read_page_rejects_wrong_stored; [exact Hz|].
+  intros H. apply He.
+  assert (N.lxor (crc32 body) (N.lxor (crc32 body) e) = N.lxor (crc32 body) (crc32 body)) as H2
+    by (rewrite H; reflexivity).
+  rewrite <- N.lxor_assoc, N.lxor_nilpotent, N.lxor_0_l in H2. exact H2.
+Qed.
+
+(* both the body and the stored checksum are altered: accepted only when the
+   stored value happens to be 0 or the checksum of the altered body *)
+Theorem read_page_accepts_only_matching stored body body' :
+  stored <> 0 -> read_page_accepts stored body = true -> read_page_accepts stored body' = true ->
+  crc32 body = crc32 body'.
+Proof.
+  intros H0 H1 H2. apply read_page_accepts_iff in H1, H2.
+  destruct H1 as [H1|H1]; [contradiction|]. destruct H2 as [H2|H2]; [contradiction|]. congruence.
+Qed.
+
 (** * Loaders *)
 
 Theorem loader_check_verified : forall l, loader_check l <> Unverified.
